@@ -228,7 +228,10 @@ Read39(r, extended) ==
   LET v == Codes39(r) IN
   IF Len(v) = 0 THEN Fail
   ELSE IF extended THEN DecExt(Shift39(v), 1, C39Alphabet, <<>>) ELSE Good([i \in 1..Len(v) |-> C39Alphabet[v[i] + 1]])
-Check39(v) == SumSeq(v) % 43
+Check39(v) == SumSeq(v) % 43                                  \* optional modulo-43 check character (weight 1 everywhere)
+Read39K(r) ==       \* reader that demands the check character: the text is the data without it
+  LET v == Codes39(r) n == Len(v) IN
+  IF n < 2 \/ Check39(SubSeq(v, 1, n - 1)) # v[n] THEN Fail ELSE Good([i \in 1..n - 1 |-> C39Alphabet[v[i] + 1]])
 Plain39(text) == \A i \in 1..Len(text) : IndexIn(C39Alphabet, text[i]) > 0
 
 (* ================================================================== ITF *)
@@ -257,12 +260,15 @@ ReadCBar(r) ==    \* text without the start/stop characters
           ELSE Good([i \in 1..n - 2 |-> CBarAlphabet[cs[i + 1] + 1]])
 
 (* ================================================================== dispatch *)
-\* sym: "EAN13" "EAN8" "UPCA" "UPCE" "C128" "C93" "C39" "C39X" "ITF" "CBAR"
+\* sym: "EAN13" "EAN8" "UPCA" "UPCE" "C128" "C93" "C39" "C39X" "C39K" "ITF" "CBAR" "MULTI"
 ReadSym(sym, r) ==
   CASE sym = "EAN13" -> ReadEAN13(r) [] sym = "EAN8" -> ReadEAN8(r) [] sym = "UPCA" -> ReadUPCA(r)
     [] sym = "UPCE" -> ReadUPCE(r) [] sym = "C128" -> Read128(r) [] sym = "C93" -> Read93(r)
-    [] sym = "C39" -> Read39(r, FALSE) [] sym = "C39X" -> Read39(r, TRUE) [] sym = "ITF" -> ReadITF(r)
-    [] sym = "CBAR" -> ReadCBar(r) [] OTHER -> Fail
+    [] sym = "C39" -> Read39(r, FALSE) [] sym = "C39X" -> Read39(r, TRUE) [] sym = "C39K" -> Read39K(r)
+    [] sym = "ITF" -> ReadITF(r) [] sym = "CBAR" -> ReadCBar(r)
+    [] sym = "MULTI" -> LET a == ReadEAN13(r) b == ReadEAN8(r) c == ReadUPCE(r) IN      \* multi-format UPC/EAN reader, no hints
+                        IF a.ok THEN a ELSE IF b.ok THEN b ELSE c
+    [] OTHER -> Fail
 \* a run sequence is well-formed when every run is a positive module count and it starts and ends with a bar
 RunsOK(r) == Len(r) % 2 = 1 /\ \A i \in 1..Len(r) : r[i] \in 1..200
 =============================================================================
